@@ -54,23 +54,7 @@ def dyn_config(rng, scenario, role_start=None):
     return cfg
 
 
-def tables(w):
-    return {"hostname": {str(k): v for k, v in w._ip_to_hostname.items()},
-            "nets": {str(k): sorted(str(x) for x in v) for k, v in w._networks.items()},
-            "fw": {str(k): sorted(str(x) for x in v) for k, v in w._firewall.items()},
-            "fw_orig": {str(k): sorted(str(x) for x in v) for k, v in w._firewall_original.items()},
-            "services": {k: sorted(map(repr, v)) for k, v in w._services.items()},
-            "data": {k: sorted(map(repr, v)) for k, v in w._data.items()},
-            "start": sorted(str(x) for x in w.hosts_to_start), "blocks": {str(k): sorted(map(str, v)) for k, v in w._fw_blocks.items()}}
-
-
-def push(t0, sig, tau):
-    """initial tables pushed through the maps (sig: ip str -> ip str, tau: net str -> net str)"""
-    return {"hostname": {sig[k]: v for k, v in t0["hostname"].items()},
-            "nets": {tau[k]: sorted(sig[x] for x in v) for k, v in t0["nets"].items()},
-            "fw": {sig[k]: sorted(sig[x] for x in v) for k, v in t0["fw"].items()},
-            "fw_orig": {sig[k]: sorted(sig[x] for x in v) for k, v in t0["fw_orig"].items()},
-            "services": t0["services"], "data": t0["data"], "start": sorted(sig[x] for x in t0["start"]), "blocks": {}}
+from .canon import tables, push  # noqa: E402,F401
 
 
 def validate_draw(t0, sig, tau):
@@ -372,6 +356,18 @@ def main(tier):
             for sc, n in runs:
                 run_one(drv, rng, V, stats, sc, n, rng.choice([42, 1, 7, 1234]) + (seed() if tier != "quick" else 0))
             run_generated(rng, V, stats, 60 if tier == "quick" else 1500, 4)
+            # coordinator level: what agents are SENT under dynamic addresses (start views in the current labelling, also for
+            # a player that joins while the re-labelling reset completes; tables after every completed reset)
+            if info.get("tables"):
+                def cfail(tags, sig, desc, rep):
+                    if "C13" in tags:
+                        V.fail("coord:" + sig, desc, rep)
+                cstats = {"focus": "C13"}
+                CC.directed_races(drv, rng, info["tables"]["defender"], cfail, cstats, 24 if tier == "quick" else 300)
+                CC.run_sessions(drv, rng, info["tables"]["defender"], cfail, cstats, 30 if tier == "quick" else 400, 40,
+                                {"burst": 0.25, "leave": 0.06, "bad": 0.01, "early_reset": 0.15, "force_env": {"use_dynamic_addresses": True}})
+                stats["coordinator_events"] = cstats.get("events", 0)
+                stats["coordinator_resets_dynamic"] = cstats.get("resets_done_dynamic", 0)
         finally:
             drv.close()
     code, nviol = V.finish()
@@ -381,7 +377,7 @@ def main(tier):
            "theorems": info.get("theorems", []), "axioms_seen": info.get("axioms_seen", []),
            "evaluations": stats["resets"], "distinct_nontrivial": len(stats["nontrivial"]),
            "rule": "consecutive resets with use_dynamic_addresses on the three shipped scenarios and on generated topologies (bare world: draws and tables only); per reset: draw validated, all tables compared with the initial tables pushed through the published maps, start view / win conditions / goal text compared with their translations, a translated 9-step script compared with the static game, model walks on the re-labelled tables; non-trivial = re-labelling with >= 2 private networks (distinct maps)",
-           "samples": stats["samples"][:2], "scripts_replayed": stats["scripts"], "generated_scenarios": stats.get("generated_scenarios", 0), "generated_mixed_prefix": stats.get("generated_mixed_prefix", 0), "model_walk_steps": stats["walk_steps"], "proof_failures": V.proof_failures}
+           "samples": stats["samples"][:2], "scripts_replayed": stats["scripts"], "generated_scenarios": stats.get("generated_scenarios", 0), "coordinator_session_events": stats.get("coordinator_events", 0), "coordinator_resets_with_dynamic_addresses": stats.get("coordinator_resets_dynamic", 0), "generated_mixed_prefix": stats.get("generated_mixed_prefix", 0), "model_walk_steps": stats["walk_steps"], "proof_failures": V.proof_failures}
     write_evidence("C13", tier, "proof", cov, T.s(), nviol,
                    ["public draws come from Faker and are assumed public and non-overlapping; every real draw is checked",
                     "generated scenarios: every network is written in one spelling and networks do not overlap (two spellings of one block are two networks to the loader and may be mapped onto each other)"])
